@@ -8,35 +8,46 @@ import Ftp.Model.Reply
 namespace Ftp.Endpoint
 open Ftp Ftp.Utils
 
-/-- `std::string_view::find(ch)` -/
-def findIdx (s : Bytes) (ch : Byte) : Option Nat :=
-  match s.idxOf? ch with
-  | some i => some i
-  | none => none
+/-- `find(ch)` + `substr`: the text before the first `ch` and the text after it -/
+def splitFirst (ch : Byte) : Bytes → Option (Bytes × Bytes)
+  | [] => none
+  | c :: t =>
+    if c = ch then some ([], t)
+    else match splitFirst ch t with
+      | some (pre, post) => some (c :: pre, post)
+      | none => none
 
-/-- `std::string_view::rfind(ch)` -/
-def rfindIdx (s : Bytes) (ch : Byte) : Option Nat :=
-  match s.reverse.idxOf? ch with
-  | some i => some (s.length - 1 - i)
-  | none => none
+/-- `rfind(ch)` + `substr`: the text before the last `ch` and the text after it -/
+def splitLast (ch : Byte) : Bytes → Option (Bytes × Bytes)
+  | [] => none
+  | c :: t =>
+    match splitLast ch t with
+    | some (pre, post) => some (c :: pre, post)
+    | none => if c = ch then some ([], t) else none
 
-def substr (s : Bytes) (pos n : Nat) : Bytes := (s.drop pos).take n
+/-- the text between the first `(` and the last `)` of the reply (`begin = find('(')`, `end = rfind(')')`,
+    refused unless `begin < end`): `some (pre, inner, post)` with `text = pre ++ "(" ++ inner ++ ")" ++ post`. -/
+def parenGroup (t : Bytes) : Option (Bytes × Bytes × Bytes) :=
+  match splitFirst 40 t with
+  | none => none
+  | some (pre, afterOpen) =>
+    -- the last `)` of the whole text lies after the `(` iff `afterOpen` contains a `)`
+    match splitLast 41 afterOpen with
+    | none => none
+    | some (inner, post) => some (pre, inner, post)
 
 /-- `try_parse_epsv_reply` on the reply text: `(<d><d><d><tcp-port><d>)`. -/
 def parseEpsv (t : Bytes) : Option Nat :=
-  match findIdx t 40 with
+  match parenGroup t with
   | none => none
-  | some b =>
-  match rfindIdx t 41 with
-  | none => none
-  | some e =>
-    if b ≥ e then none
-    else if e - b < 6 then none
+  | some (_, inner, _) =>
+    -- `end - begin < 6`
+    if inner.length < 5 then none
     else
-      let d := t.getD (b + 1) 0
+      let d := inner.getD 0 0
       if d < 33 || d > 126 then none
-      else if t.getD (b + 2) 0 != d || t.getD (b + 3) 0 != d || t.getD (e - 1) 0 != d then none
-      else parseU16 (substr t (b + 4) (e - 1 - (b + 4)))
+      else if inner.getD 1 0 != d || inner.getD 2 0 != d || inner.getLast? != some d then none
+      else parseU16 ((inner.drop 3).dropLast)
 
 /-- the dotted quad built from four parsed octets -/
 def dotted (a b c d : Nat) : Bytes :=
@@ -44,25 +55,20 @@ def dotted (a b c d : Nat) : Bytes :=
 
 /-- `try_parse_pasv_reply`: `(h1,h2,h3,h4,p1,p2)`; result = (ip text, port). -/
 def parsePasv (t : Bytes) : Option (Bytes × Nat) :=
-  match findIdx t 40 with
+  match parenGroup t with
   | none => none
-  | some b =>
-  match rfindIdx t 41 with
-  | none => none
-  | some e =>
-    if b ≥ e then none
-    else if b + 1 ≥ e then none
+  | some (_, a, _) =>
+    -- `begin + 1 >= end`
+    if a.isEmpty then none
+    else if a.count 44 != 5 then none
     else
-      let a := substr t (b + 1) (e - (b + 1))
-      if a.count 44 != 5 then none
-      else
-        match splitString a 44 with
-        | [t0, t1, t2, t3, t4, t5] =>
-          match parseU8 t0, parseU8 t1, parseU8 t2, parseU8 t3, parseU8 t4, parseU8 t5 with
-          | some h1, some h2, some h3, some h4, some p1, some p2 =>
-            some (dotted h1 h2 h3 h4, p1 * 256 + p2)
-          | _, _, _, _, _, _ => none
-        | _ => none
+      match splitString a 44 with
+      | [t0, t1, t2, t3, t4, t5] =>
+        match parseU8 t0, parseU8 t1, parseU8 t2, parseU8 t3, parseU8 t4, parseU8 t5 with
+        | some h1, some h2, some h3, some h4, some p1, some p2 =>
+          some (dotted h1 h2 h3 h4, p1 * 256 + p2)
+        | _, _, _, _, _, _ => none
+      | _ => none
 
 inductive Family | v4 | v6
   deriving Repr, DecidableEq
